@@ -21,6 +21,7 @@ import (
 	"encoding/hex"
 	"errors"
 	"fmt"
+	"hash/crc32"
 	"io"
 	"math/rand"
 	"os"
@@ -1500,6 +1501,43 @@ func c13selfTest(rc *vk.Rec) bool {
 				rc.Count("selftest_corruptions_rejected", 1)
 			}
 		}
+	}
+	// Long Codec form: a file made by rac.ChunkWriter with a Long Codec must be
+	// accepted with the 7 codec bytes recovered; without its 0xFD element (and
+	// with the checksum recomputed) it must be rejected under "codec-long".
+	{
+		buf := &bytes.Buffer{}
+		cw := &rac.ChunkWriter{Writer: buf}
+		const long = rac.Codec(0x8000_0000_326F_646D) // "mdo2\x00\x00\x00"
+		err := cw.AddChunk(5, long, []byte("abcde"), 0, 0)
+		if err == nil {
+			err = cw.AddChunk(7, long, []byte("fghijkl"), 0, 0)
+		}
+		if err == nil {
+			err = cw.Close()
+		}
+		f := buf.Bytes()
+		res, v := racspecWalk(f)
+		if err != nil || v != nil || len(res.Leaves) != 2 || res.Leaves[0].CodecByte&0x80 == 0 || string(res.Leaves[0].Long[:]) != "mdo2\x00\x00\x00" {
+			rc.Inconclusive(fmt.Sprintf("c13 self-test: long codec file: err=%v viol=%v", err, v))
+			return false
+		}
+		root := res.Nodes[0]
+		g := append([]byte(nil), f...)
+		node := g[root.COff : root.COff+root.size()]
+		for i := 0; i < root.Arity; i++ {
+			if node[8*i+7] == 0xFD {
+				node[8*i+7] = 0xFF
+			}
+		}
+		crc := crc32.ChecksumIEEE(node[6:])
+		crc ^= crc >> 16
+		node[4], node[5] = byte(crc), byte(crc>>8)
+		if _, v := racspecWalk(g); v == nil || v.Clause != "codec-long" {
+			rc.Inconclusive(fmt.Sprintf("c13 self-test: long codec without its 0xFD element: viol=%v", v))
+			return false
+		}
+		rc.Count("selftest_long_codec", 1)
 	}
 	return true
 }
